@@ -285,6 +285,29 @@ def run_case(case):
                         continue
                     pk = float(x[-2])
                     k2 = dict(key, ducts_change=bool(n_last != f.nd))
+                    # the six face averages of this wall at the outlet: each
+                    # face is its cells between (and including) the two
+                    # corners that bound it
+                    tw = np.asarray(a.region[-1].temp['duct_mw'][dnum],
+                                    dtype=float)
+                    per = len(tw) // 6
+                    faces = []
+                    for sd in range(6):
+                        cells = [(sd * per - 1) % len(tw)] + [
+                            sd * per + j for j in range(per)]
+                        faces.append(sum(tw[c] for c in cells) / len(cells))
+                    got = [float(v) for v in x[3:9]]
+                    res.check('K5b_table_duct_face_averages',
+                              all(abs(g_ - tT(f_)) < 0.006
+                                  for g_, f_ in zip(got, faces)),
+                              'duct table row (wall %d of %d at the outlet) '
+                              'shows face averages %r, the outlet plane '
+                              'gives %r' % (dnum + 1, n_last, got,
+                                            [round(tT(f_), 2)
+                                             for f_ in faces]),
+                              dict(k2, n_walls_outlet=int(n_last),
+                                   outlet=('rodded' if a.region[-1].is_rodded
+                                           else 'unrodded')))
                     res.check('K5_table_duct_row',
                               abs(pk - tT(f.duct[g][0])) < 0.006,
                               'duct table row (duct %d of %d at the outlet) '
